@@ -31,8 +31,16 @@ def changes_of(ctx, env0, spec, objs, script):
     return changes, prims
 
 
-def h_sim(ctx, skeleton, script, date, n=3, toggles=(), args=None, extra_sym=(), second=None):
+def h_sim(ctx, skeleton, script, date, n=3, toggles=(), args=None, extra_sym=(), second=None, start=None, tz=None):
+    """start / tz: local start date of every usage pattern and time zone of every country (a period that spans a
+    daylight-saving transition: repeated or skipped local hours in the series the simulation has to cut)"""
     spec = M.SKELETONS[skeleton](n, **(args or {}))
+    if tz:
+        for c in spec["countries"].values():
+            c["tz"] = tz
+    if start:
+        for po in spec["patterns"].values():
+            po["starts"]["start"] = datetime.fromisoformat(start)
     sym = traffic_syms(spec)
     sym.update(collect_slots(spec, script))
     if second:
@@ -46,6 +54,9 @@ def h_sim(ctx, skeleton, script, date, n=3, toggles=(), args=None, extra_sym=(),
     before = S.snapshot(objs)
     changes, prims = changes_of(ctx, env0, spec, objs, script)
     when = UTC0 + timedelta(hours=DATES[date]) if date != "naive" else datetime(2025, 1, 1, 0)
+    if start and date != "naive":
+        first = min(V.utc_key(ts) for p_ in spec["system"]["patterns"] for ts in objs[p_].utc_hourly_usage_journey_starts.value.index)
+        when = (first + timedelta(hours=DATES[date])).to_pydatetime()
     sim, err = None, None
     try:
         sim = ModelingUpdate(changes, when)
@@ -108,6 +119,11 @@ def plan(tier, seed):
     for sc in SCRIPTS_T5:
         p.append(("sim", dict(skeleton="T5", script=sc, date="first", n=2, toggles=["reset", "set", "reset"])))
     p.append(("sim", dict(skeleton="T1", script=[num("job", "data_transferred")], second=[num("srv", "power")], date="interior", toggles=["set", "reset"])))
+    # periods spanning a fall-back night (a local hour occurs twice) and a spring-forward night (a local hour is skipped)
+    for st, z, d, nn in (("2025-10-25T23:00:00", "Europe/Paris", "interior", 6), ("2025-11-02T00:00:00", "America/New_York", "last", 4),
+                         ("2025-03-30T00:00:00", "Europe/Paris", "interior", 5)):
+        p.append(("sim", dict(skeleton="T1", script=[num("job", "data_transferred")], date=d, n=nn, start=st, tz=z, toggles=["set", "reset"])))
+    p.append(("sim", dict(skeleton="T9", script=[L("up", "network", "net_alt")], date="interior", n=5, start="2025-10-25T23:00:00", tz="Europe/Paris", toggles=["set", "reset"])))
     # simulations whose recomputation fails with another exception than ValueError (a zero request duration divides by
     # zero; a storage given to a second server is refused with PermissionError)
     for d in ("first", "interior"):
